@@ -4,6 +4,7 @@
 From Coq Require Import List Bool Arith.
 Import ListNotations.
 Require Import PonyV.Model.C18Session PonyV.Gen.C18Web PonyV.Proofs.C18Proofs.
+Require Import PonyV.Model.C18Faults PonyV.Proofs.C18FaultProofs.
 Require Import PonyV.Model.C18Obs.   (* observation functions of the correspondence run: built with this cone *)
 #[local] Open Scope list_scope.   (* also keeps the cone scanner's regex from backtracking over the next long identifier *)
 
@@ -189,6 +190,63 @@ Theorem C18_commit_decision_matches_source : forall (exc : Type) (cfail : exc) (
     end.
 Proof. exact commit_or_rollback_src. Qed.
 Print Assumptions C18_commit_decision_matches_source.
+
+(* faults of the machinery itself: the callables given as allowed_exceptions / retry_exceptions may raise, core.rollback() may raise.
+   One attempt of a decorated function, for every combination: the session ends closed with nothing pending; the write is
+   committed (b) only if the body finished or raised an exception the allowed-predicate accepted; a finished body with a working
+   commit is committed and returns normally; no failure is ever turned into a normal return; another attempt follows only if the
+   retry predicate said yes and rollback() worked - and then nothing was committed *)
+Theorem C18_faults_attempt : forall (exc : Type) (cfail rbfail : exc) allowed retryable rb_ok i p o c t,
+  let r := attempt_f exc cfail rbfail allowed retryable rb_ok (leaf exc i p o) (mkst 0 [] c t) in
+  depth (fst r) = 0 /\ pend (fst r) = []
+  /\ exists b : bool,
+       comm (fst r) = c ++ (if b then [i] else [])
+       /\ (b = true -> p = false /\ (o = Ok \/ is_yes exc allowed = true))
+       /\ (o = Ok -> p = false -> b = true /\ snd r = ADone Ok)
+       /\ (snd r = ADone Ok -> o = Ok /\ p = false)
+       /\ (snd r = ARetry -> is_yes exc retryable = true /\ rb_ok = true /\ b = false).
+Proof. exact attempt_f_safe. Qed.
+Print Assumptions C18_faults_attempt.
+
+(* the retry predicate raises: no further attempt, the body's own exception still decides commit or rollback, the caller sees the
+   predicate's exception *)
+Theorem C18_faults_retry_predicate_raises : forall (exc : Type) (cfail rbfail : exc) allowed rb_ok i e e2 c t,
+  (forall e3, allowed <> PRaises e3) ->
+  let r := attempt_f exc cfail rbfail allowed (PRaises e2) rb_ok (leaf exc i false (Raise e)) (mkst 0 [] c t) in
+  snd r = ADone (Raise e2) /\ comm (fst r) = c ++ (if is_yes exc allowed then [i] else []).
+Proof. exact attempt_f_retry_predicate_raises. Qed.
+Print Assumptions C18_faults_retry_predicate_raises.
+
+(* the allowed predicate raises: rolled back (c ++ [] = c), its exception replaces the body's *)
+Theorem C18_faults_allowed_predicate_raises : forall (exc : Type) (cfail rbfail : exc) rb_ok i e e3 c t,
+  let r := attempt_f exc cfail rbfail (PRaises e3) PNo rb_ok (leaf exc i false (Raise e)) (mkst 0 [] c t) in
+  snd r = ADone (Raise e3) /\ comm (fst r) = c ++ [].
+Proof. exact attempt_f_allowed_predicate_raises. Qed.
+Print Assumptions C18_faults_allowed_predicate_raises.
+
+(* rollback() raises while a retry is being prepared: no further attempt, nothing committed, RollbackException reaches the caller *)
+Theorem C18_faults_rollback_fails : forall (exc : Type) (cfail rbfail : exc) allowed i e c t,
+  (forall e3, allowed <> PRaises e3) ->
+  let r := attempt_f exc cfail rbfail allowed PYes false (leaf exc i false (Raise e)) (mkst 0 [] c t) in
+  snd r = ADone (Raise rbfail) /\ comm (fst r) = c ++ [].
+Proof. exact attempt_f_rollback_fails. Qed.
+Print Assumptions C18_faults_rollback_fails.
+
+(* the context manager under the same faults: a failing rollback() at the exit is swallowed, the body's exception goes on *)
+Theorem C18_faults_with : forall (exc : Type) (cfail rbfail : exc) allowed rb_ok i p o c t,
+  let r := with_f exc cfail rbfail allowed rb_ok (leaf exc i p o) (mkst 0 [] c t) in
+  depth (fst r) = 0 /\ pend (fst r) = []
+  /\ comm (fst r) = c ++ (if negb p && match o with Ok => true | Raise _ => is_yes exc allowed end then [i] else [])
+  /\ snd r = match o with
+             | Ok => if p then Raise cfail else Ok
+             | Raise e => match allowed with
+                          | PYes => if p then Raise cfail else Raise e
+                          | PNo => Raise e
+                          | PRaises e3 => Raise e3
+                          end
+             end.
+Proof. exact with_f_spec. Qed.
+Print Assumptions C18_faults_with.
 
 (* `exc` ranges over all BaseExceptions - SystemExit, KeyboardInterrupt, GeneratorExit, user classes derived from BaseException -
    not only over Exception: every theorem above holds for them (the session's handlers are bare `except:`); the predicate
